@@ -49,6 +49,17 @@ MaxAbsCoord(g) == LET P == PointSet(g, FALSE) IN
 HasComps(items) == \E i \in 1..Len(items) : items[i].k = "g"
 AllOnFirst(items) == \A i \in 1..Len(items) : (items[i].k = "c" /\ items[i].cl) => FirstOn(items[i].pts) = 1
 
+(* Named root cause of a finding on the unchanged tree (findings/C14/ttglyphpen-offcurve-contour-drops-point).
+   TTGlyphPen.closePath removes the last point of a contour when it coincides with the first one -- meant for a
+   closing lineTo / curve end that duplicates the moveTo point -- also when both are OFF-curve points of a contour
+   without on-curve point, where the duplicate is a control point of the curve.  CutDupOff is what that does to an
+   outline; a TrueType result that is wrong but equals the geometry of CutDupOff(input) is reported under the
+   root-cause clause, anything else under "geometry".  A correct result is accepted either way.              *)
+CutDupOffItem(it) ==
+  IF FreeStart(it) /\ Len(it.pts) >= 2 /\ XY(it.pts[Len(it.pts)]) = XY(it.pts[1])
+  THEN Contour(TRUE, SubSeq(it.pts, 1, Len(it.pts) - 1)) ELSE it
+CutDupOff(items) == [i \in 1..Len(items) |-> CutDupOffItem(items[i])]
+
 OK == <<"ok", "">>
 (* equal as bags of contours, closed contours compared up to their start point *)
 SameBag(ga, gb) == /\ Len(ga) = Len(gb)
@@ -125,12 +136,14 @@ RunVerdict(t, run, sh) ==
        ELSE IF ~Exact(so) THEN R("geometry-offgrid")
        ELSE LET gi == Geom(shp)  go == Geom(so) IN
          IF a = TT THEN
-            (* flag: 1 = start point free (dropImpliedOnCurves may drop it), 2 = contour order free
+            (* flag: 0 = start points kept (free only for contours without on-curve point, PenProto.FreeStart),
+               1 = start point free (dropImpliedOnCurves may drop it), 2 = contour order free
                (a glyph with contours and components is decomposed, components last) *)
-            (IF run[4] >= 2 THEN (IF SameBag(GeoFill(go), GeoFill(gi)) THEN OK ELSE R("geometry"))
-             ELSE IF run[4] = 1 THEN (IF SameUpToStart(GeoFill(go), GeoFill(gi)) THEN OK ELSE R("geometry"))
-             ELSE IF GeoFill(go) = GeoFill(gi) THEN OK
-             ELSE IF SameUpToStart(GeoFill(go), GeoFill(gi)) THEN R("start-point") ELSE R("geometry"))
+            LET same(x) == IF run[4] >= 2 THEN SameBag(GeoFill(go), GeoFill(x)) ELSE SameUpToStart(GeoFill(go), GeoFill(x))
+                cut == Good(CutDupOff(items))
+            IN IF same(gi) THEN (IF run[4] = 0 /\ ~SameFillStart(items, so.items) THEN R("start-point") ELSE OK)
+               ELSE IF cut.items # items /\ Exact(cut) /\ same(Geom(cut)) THEN R("offcurve-contour-loses-point-equal-to-first")
+               ELSE R("geometry")
          ELSE IF a = T2 THEN
             (IF run[4] = 1 THEN (IF GeoT2(go) = GeoT2(gi) THEN OK ELSE R("geometry-specialized"))
              ELSE IF GeoFill(go) = GeoFill(gi) THEN OK ELSE R("geometry"))
